@@ -347,9 +347,12 @@ class Pair:
             raise RuntimeError("Lean driver failed (rc=%s): %s" % (rc_m, merr[:2000]))
         base = 0
         restarts = 0
+        hangs = 0
         while base < len(cases):
             chunk = cases[base:]
             rc_i, io, ierr = self.run_impl(chunk)
+            if rc_i == -9:
+                hangs += 1      # the harness did not finish within the time limit (a hang is reported like a crash)
             crashed_at = None
             if rc_i != 0:
                 done = [k for k in range(len(chunk)) if k in io and len(io[k]) >= len(chunk[k])]
@@ -378,8 +381,8 @@ class Pair:
                 break
             base += crashed_at + 1
             restarts += 1
-            if restarts >= max_restarts:
-                break
+            if restarts >= max_restarts or hangs >= 2:
+                break           # (two hangs are enough to report; every further one would cost a full time limit)
         return fails
 
     def fails_one(self, case):
